@@ -20,7 +20,7 @@
 (*   Shift          pop_control_ene_shift = e - 0.1 log(sum w / N) / dt    *)
 (*   SR             sr.stochastic_reconfiguration*: all weights = W / N    *)
 (***************************************************************************)
-EXTENDS Integers, Sequences, FiniteSets, FiniteSetsExt, TLC
+EXTENDS Integers, Sequences, FiniteSets, FiniteSetsExt, SequencesExt, Json, IOUtils, TLC
 
 Num(n, d)      == [k |-> "num", n |-> n, d |-> d, u |-> 0]
 NumU(n, d, u)  == [k |-> "num", n |-> n, d |-> d, u |-> u]
@@ -157,6 +157,19 @@ SR ==
 
 Next == Step \/ SR
 Spec == Init /\ [][Next]_vars
+
+\* ---------------------------------------------------------------- spec -> code: the one-step table
+\* Every (f, w0) of the phaseless rule with its exact result; the harness realises each row in the real
+\* propagator.propagate through a trial proxy with prescribed overlaps (one TLC row = one implementation test).
+TableRows == SetToSeq({<<f, w0>> : f \in FInputs, w0 \in W0 \cup {Zero}})
+WriteTable ==
+  ndJsonSerialize(IOEnv.WEIGHT_TABLE,
+     [i \in DOMAIN TableRows |-> [f |-> TableRows[i][1], w0 |-> TableRows[i][2],
+                                  fac |-> PhaselessFactor(TableRows[i][1]),
+                                  r |-> Phaseless(TableRows[i][1], TableRows[i][2])]])
+TableInit == /\ w = [x \in Walkers |-> Zero] /\ shift = "fin" /\ nsteps = 0 /\ lastWasSR = FALSE
+             /\ WriteTable
+TableSpec == TableInit /\ [][FALSE]_vars
 
 \* ---------------------------------------------------------------- properties
 WeightDomain == \A x \in Walkers : IsNum(w[x]) /\ w[x].n >= 0
